@@ -110,7 +110,7 @@ def run_history(rng, counters, digests, samples, violations, known, layered, nop
     import xdeps.refs as R
     import xdeps.tasks as T
     hg = gen.HistoryGen(rng, layered=layered, depth=rng.choice([2, 3, 3]), profile="safe",
-                        weights={"ftask": 0.06, "knob": 0.05, "define": 0.45})
+                        weights={"ftask": 0.06, "knob": 0.05, "define": 0.45, "load": 0.03 if layered else 0.0})
     ls = lockstep.LockStep(hg.world)
     orders_seen = {}
 
@@ -128,6 +128,12 @@ def run_history(rng, counters, digests, samples, violations, known, layered, nop
             if f and f["kind"] == "exception" and kf.is_open("KF1", ID) and op[0] in ("set", "iop") and \
                     kf.kf1_premature(ls.runner.mgr, f["run_order"], hg.shadow, ls.runner, op[1])[0]:
                 known.append(kf.known("KF1", "a task evaluated before its producer raised on the stale input"))
+                return True
+            if f and f["kind"] == "exception" and hg.shadow.stale and f["exc_type"] != "KeyError":
+                # after a load the values are not those of the shadow (nothing was evaluated): Python may
+                # legitimately reject an operation the shadow accepted; the history ends here
+                counters["histories_ended_by_evaluation_error_on_stale_values"] = \
+                    counters.get("histories_ended_by_evaluation_error_on_stale_values", 0) + 1
                 return True
             if f and f["kind"] == "exception":
                 violations.append({"what": "C02 %s raised %s: %s" % (op[0], f["exc_type"], f["exc"]),
@@ -175,6 +181,8 @@ def run_history(rng, counters, digests, samples, violations, known, layered, nop
         op, exp = hg.next_op()
         if op is None:
             break
+        if hg.shadow.stale:
+            exp = None          # load registers without evaluating: values are no longer the shadow's (trigger sets still are checked)
         idempotent = op[0] == "set" or op[0] == "replace"
         cut = window(op, exp, rng.choice([3, 4, 6]) if idempotent else 1, ("h", step))
         counters["ops_" + op[0]] = counters.get("ops_" + op[0], 0) + 1
@@ -184,11 +192,14 @@ def run_history(rng, counters, digests, samples, violations, known, layered, nop
         # sweep: assign every undefined location its current value (state unchanged, tasks re-run)
         sh = hg.shadow
         tt = hg.task_targets()
-        exp = sh.all_expected()
+        exp = None if sh.stale else sh.all_expected()
         locs = [l for l in hg.locs if sh.ckey(l["path"]) not in sh.defs and sh.ckey(l["path"]) not in tt]
         rng.shuffle(locs)
         for l in locs:
-            cur = sh.expected_path(l["path"])
+            try:
+                cur = ls.runner.mkref(l["path"])._get_value() if sh.stale else sh.expected_path(l["path"])
+            except Exception:
+                continue
             try:
                 v = enc(cur)
             except TypeError:
